@@ -60,7 +60,94 @@ func main() {
 	}
 	defer w.Close()
 	histories(o, rep, w, rng)
+	if len(rep.Violations) == 0 && o.Replay == "" {
+		rounds := 40
+		if o.Thorough {
+			rounds = 400
+		}
+		concurrentStores(rep, w, rounds)
+	}
 	rep.Finish()
+}
+
+// concurrentStores: "sets, adds and removes exactly the named flags … the result is what FETCH FLAGS reports in this and every
+// later session" also when the STOREs come from several sessions at once. Five sessions change one message at the same time,
+// each naming other flags (four add a keyword of their own, one removes \Seen): the changes commute, so after all five were
+// answered OK a later session must see every one of the four keywords and no \Seen, whatever the interleaving was.
+func concurrentStores(rep *hx.Report, w *world.World, rounds int) {
+	u := "cstore@example.com"
+	c0 := w.Login(u)
+	c0.Append("INBOX", "", hist.Msg(9100))
+	c0.Close()
+	var cs []*world.Client
+	for i := 0; i < 5; i++ {
+		c := w.Login(u)
+		c.Cmd("SELECT INBOX")
+		cs = append(cs, c)
+	}
+	defer func() {
+		for _, c := range cs {
+			c.Close()
+		}
+	}()
+	for r := 0; r < rounds && len(rep.Violations) == 0; r++ {
+		rep.Case(fmt.Sprintf("concurrent-stores|%d", r), true)
+		cs[0].Cmd(`STORE 1 FLAGS.SILENT (\Seen)`)
+		start := make(chan struct{})
+		done := make(chan string, 5)
+		for i, c := range cs {
+			cmd := fmt.Sprintf("STORE 1 +FLAGS.SILENT (r%dk%d)", r, i)
+			if i == 4 {
+				cmd = `STORE 1 -FLAGS.SILENT (\Seen)`
+			}
+			if (r+i)%3 == 0 {
+				cmd = "UID " + cmd
+			}
+			go func(c *world.Client, cmd string) {
+				<-start
+				res := c.Cmd(cmd)
+				if res.OK() {
+					done <- ""
+				} else {
+					done <- cmd + " -> " + res.Tagged
+				}
+			}(c, cmd)
+		}
+		close(start)
+		refused := ""
+		for range cs {
+			if d := <-done; d != "" {
+				refused = d
+			}
+		}
+		if refused != "" {
+			rep.Hit("concurrent-stores:refused")
+			continue // a reported failure is not a lost update
+		}
+		later := w.Login(u)
+		later.Cmd("EXAMINE INBOX")
+		fl := ""
+		for _, l := range later.Cmd("FETCH 1 (FLAGS)").Untagged {
+			if m := regexp.MustCompile(`FLAGS \(([^)]*)\)`).FindStringSubmatch(l); m != nil {
+				fl = m[1]
+			}
+		}
+		later.Close()
+		have := map[string]bool{}
+		for _, f := range strings.Fields(fl) {
+			have[f] = true
+		}
+		var missing []string
+		for i := 0; i < 4; i++ {
+			if k := fmt.Sprintf("r%dk%d", r, i); !have[k] {
+				missing = append(missing, k)
+			}
+		}
+		if len(missing) > 0 || have[`\Seen`] {
+			rep.Violate("impl-violation", "STORE from several sessions at once (Props.C10.store_exact; the changes commute)", fmt.Sprintf("round %d: four sessions added one keyword each and a fifth removed \\Seen, all five were answered OK; a later session sees FLAGS (%s): missing %v, \\Seen present: %v", r, fl, missing, have[`\Seen`]), []string{"concurrent-stores"})
+		}
+		rep.Hit("concurrent-stores:all-applied")
+	}
 }
 
 func pure(o *hx.Opts, rep *hx.Report, rng *hx.Rng) {
